@@ -89,6 +89,13 @@ def records(ctx):
                        (s.service_id, s.instance_id, s.major_version, s.minor_version, s.options_1, s.options_2) \
                     and e.ttl == ttl and e.sd_type == T.OfferService
                 recs.append({"op": "convert", "what": "offer_round_trip", "same": bool(same)})
+                # a second description with the same ids and versions but other options keeps ITS options
+                s_other = config.Service(*conc(a, c), options_1=opts2, options_2=(), eventgroups=frozenset([1]))
+                e2 = s_other.create_offer_entry(ttl)
+                back2 = config.Service.from_offer_entry(e2)
+                recs.append({"op": "convert", "what": "options_of_an_equal_description",
+                             "same": bool((back2.options_1, back2.options_2) == (opts2, ()) and
+                                          (config.Service.from_offer_entry(s.create_offer_entry(ttl)).options_1 == opts1))})
                 f = s.create_find_entry(ttl)
                 same = (f.sd_type, f.service_id, f.instance_id, f.major_version, f.minver_or_counter, f.ttl, f.options_1, f.options_2) == \
                        (T.FindService, s.service_id, s.instance_id, s.major_version, s.minor_version, ttl, (), ())
